@@ -226,6 +226,10 @@ class Run:
     # ---- open
     def open(self):
         self.prs, data = open_start(self.start, self.rnd)
+        if self.profile in ("xml", "mixed"):
+            from . import ops
+
+            ops.enrich_start(self)
         pin = opcx.Pkg.from_bytes(data)
         self.baseline_closure = Counter((r, _norm_detail(d)) for r, d in opcx.closure_problems(pin))
         for part in xml_parts(self.prs):
